@@ -95,8 +95,17 @@ def next_attempt(sim, limit=400.0):
     r = sim.reactor
     end = r.now + limit
     guard = 0
-    while not r.attempts() and r.next_time() is not None and r.next_time() <= end and guard < 200:
-        r.advance_to(r.next_time())
+    while not r.attempts() and guard < 200:
+        t = r.next_time()
+        if r.pending_io() and (t is None or t > r.now + 10.0):
+            # a deferred connectionLost is late by at most some seconds, not for ever
+            r.deliver_io(0)
+            r.settle(fire_due=True)
+            guard += 1
+            continue
+        if t is None or t > end:
+            break
+        r.advance_to(t)
         r.settle(fire_due=True)
         guard += 1
     return r.attempts()
@@ -116,6 +125,9 @@ def run_case(case):
     ref = agent_open_of(ss.connect(fs))[1]
     sim = mk_sim(cfg)
     r = sim.reactor
+    # 'late_lost': the connectionLost that follows the agent's own loseConnection arrives only after the next
+    # connection has been made (Twisted promises "a later reactor turn", nothing more)
+    r.defer_io = bool(case.get('late_lost'))
     sim.boot()
     opens = []
     specs = list(case['history']) + [case['observed']]
@@ -133,6 +145,9 @@ def run_case(case):
             out.append(('no-open-sent', 'first frame on connection %d is %r' % (c.id, fr)))
             return out
         opens.append(fr[1])
+        while r.pending_io():
+            r.deliver_io(0)
+            r.settle(fire_due=True)
         msg, accept, reasons, peer65 = peer_open_bytes(cfg, spec)
         mark = sim.mark()
         r.peer_send(c, msg)
@@ -317,7 +332,8 @@ def case_strategy(draw):
     _, accept, _, _ = peer_open_bytes(cfg, obs)
     nseg = draw(st.integers(1, 3))
     path = [[draw(st.sampled_from([1, 2])), draw(st.lists(vs.asn4, min_size=1, max_size=4))] for _ in range(nseg)]
-    return {'cfg': cfg, 'history': hist, 'observed': obs, 'observed_accept': accept, 'as_path': path, 'agg_as': draw(vs.asn4)}
+    return {'cfg': cfg, 'history': hist, 'observed': obs, 'observed_accept': accept, 'as_path': path, 'agg_as': draw(vs.asn4),
+            'late_lost': draw(st.booleans())}
 
 
 def shards(tier):
